@@ -301,6 +301,15 @@ func forkAndExecInChild(r *Runner, argv0 *byte, argv, env []*byte, workdir, host
 				if err1 != 0 {
 					childExitErrorWithIndex(pipe, LocMount, i, err1)
 				}
+				// a recursive bind brings the mounts nested in the source along, the remount reaches the top one
+				// only: make the whole subtree read-only (kernels without mount_setattr keep the former behaviour)
+				if m.Flags&syscall.MS_REC != 0 {
+					_, _, err1 = syscall.RawSyscall6(unix.SYS_MOUNT_SETATTR, uintptr(_AT_FDCWD), uintptr(unsafe.Pointer(m.Target)),
+						uintptr(unix.AT_RECURSIVE), uintptr(unsafe.Pointer(&readOnlyMountAttr)), unsafe.Sizeof(readOnlyMountAttr), 0)
+					if err1 != 0 && err1 != syscall.ENOSYS {
+						childExitErrorWithIndex(pipe, LocMount, i, err1)
+					}
+				}
 			}
 		}
 
